@@ -153,6 +153,9 @@ func Generate(r *rng.R, c *GenConfig) *Scenario {
 			pendingSpawn = pendingSpawn[1:]
 		case r.Chance(1, 4):
 			cb = Callback{Kind: "echo"}
+			if r.Bool() {
+				cb = Callback{Kind: "echoobj"}
+			}
 		default:
 			op := c.genOp(r, nch, &uniq)
 			for op.K == "range" || op.K == "sleep" || op.K == "gosched" || op.K == "yield" {
